@@ -73,30 +73,56 @@ class Cond(V):
 class Seq(V):
     """something with a length whose contents are not tracked: slices and str behind a fat pointer (by
     value), arrays, Vec, String, Box<[T]>, SmallVec"""
-    __slots__ = ("len", "elem", "items", "view")
+    __slots__ = ("len", "elem", "items", "view", "src")
 
-    def __init__(self, ln, elem=None, items=None, view=None):
+    def __init__(self, ln, elem=None, items=None, view=None, src=None):
         self.len = ln if isinstance(ln, Lin) else Lin.const(ln)
         self.elem = elem     # optional: type index of elements (for materialising reads)
         self.items = items   # None: elements unknown; EMPTY: no element yet; else a value summarising every element
-        self.view = view     # (buffer id, offset Lin): this slice is the window [offset, offset+len) of a tracked output buffer
+        self.view = view     # (buffer id, offset Lin): this slice is the window [offset, offset+len) of a tracked buffer
+        self.src = src       # content provenance of a copy: (buffer id, offset Lin) = equals that window of the buffer's
+                             # original content, or ("cat", src_a, len_a, src_b) = concatenation of two such contents
+
+    def content(self):
+        """where the bytes of this sequence come from: its view if it is a window, else its copy provenance"""
+        return self.view if self.view is not None else self.src
 
     def vars(self, acc):
         acc.update(self.len.t)
         if isinstance(self.items, V):
             self.items.vars(acc)
-        if self.view is not None:
-            acc.update(self.view[1].t)
+        for w in (self.view, self.src):
+            _src_vars(w, acc)
 
     def __repr__(self):
-        return "Seq(%r%s%s)" % (self.len, "" if self.items is None else ", items=%r" % (self.items,),
-                                "" if self.view is None else ", view=%s+%r" % self.view)
+        return "Seq(%r%s%s%s)" % (self.len, "" if self.items is None else ", items=%r" % (self.items,),
+                                  "" if self.view is None else ", view=%s+%r" % self.view,
+                                  "" if self.src is None else ", src=%r" % (self.src,))
 
     def __eq__(self, o):
-        return isinstance(o, Seq) and self.len == o.len and self.items == o.items and self.view == o.view
+        return isinstance(o, Seq) and self.len == o.len and self.items == o.items and self.view == o.view and self.src == o.src
 
     def __hash__(self):
-        return hash(("seq", self.len, self.items, self.view))
+        return hash(("seq", self.len, self.items, self.view, self.src))
+
+
+def _src_vars(w, acc):
+    if w is None:
+        return
+    if w[0] == "cat":
+        _src_vars(w[1], acc)
+        acc.update(w[2].t)
+        _src_vars(w[3], acc)
+    else:
+        acc.update(w[1].t)
+
+
+def src_rename(w, f):
+    if w is None:
+        return None
+    if w[0] == "cat":
+        return ("cat", src_rename(w[1], f), w[2].rename(f), src_rename(w[3], f))
+    return (w[0], w[1].rename(f))
 
 
 class Empty(V):
